@@ -9,6 +9,7 @@ CONSTANTS
   TermIsForced = FALSE
   SecondStopHangs = TRUE
   AwaitsLastWorkerOnly = FALSE
+  WakeAcceptFirst = FALSE
 SPECIFICATION FairSpec
 PROPERTIES C06_AlwaysCompletes
 CHECK_DEADLOCK FALSE
